@@ -262,8 +262,12 @@ class CachedStore(Entity):
         flushed = 0
         for key in list(self._dirty_keys):
             if key in self._cache:
-                yield from self._backing_store.put(key, self._cache[key])
-                self._dirty_keys.discard(key)
+                value = self._cache[key]
+                yield from self._backing_store.put(key, value)
+                # A put() that re-wrote the key while this write was in flight
+                # has not reached the backing store yet: keep the key dirty.
+                if self._cache.get(key, value) == value:
+                    self._dirty_keys.discard(key)
                 self._writebacks += 1
                 flushed += 1
         return flushed
